@@ -13,7 +13,7 @@ Cfg  == JsonDeserialize(IOEnv.VERIF_CFG)
 Cwd  == P(TRUE, Cfg.cwd)
 Esm  == Cfg.esm
 
-DirNames  == IF Small THEN { Dot, DotDot, <<"d">>, <<"D">>, <<"x", ".", "y">> }
+DirNames  == IF Small THEN { Dot, DotDot, <<"d">>, <<"x", ".", "y">> }
              ELSE { Dot, DotDot, <<"d">>, <<"D">>, <<".", "h">>, <<".", ".", "v">>, <<"x", ".", "y">>, <<"d", ".", "t", "s">> }
              \* (d, D: two different directories on a case-sensitive file system)
              \* (.h, ..v: ordinary names that begin with dots - a specifier still has to start with ./ or ../)
